@@ -314,6 +314,58 @@ let c13 s b =
   | Err c -> Printf.bprintf b "node err %d" (int_of_nat c)
   | Ok (ctx, node) -> Printf.bprintf b "node %d | arena " (int_of_nat node); buf_arena b ctx
 
+(* ---- C16: shape builders ------------------------------------------------------------ *)
+(* a tree table (no remaps inside the inputs the harness sends... but handle them anyway) -> AST *)
+let etree_of_table (t : tnode list) (root : int) : f32 etree =
+  let arr = Array.of_list t in
+  let rec go i =
+    match arr.(i) with
+    | TInput v -> (match int_of_nat v with 0 -> EX | 1 -> EY | 2 -> EZ | _ -> EVar v)
+    | TConst c -> EConst c
+    | TUn (u, a) -> EUn (u, go (int_of_nat a))
+    | TBin (bo, l, r) -> EBin (bo, go (int_of_nat l), go (int_of_nat r))
+    | TRemapAxes (t', x, y, z) -> ERemapAxes (go (int_of_nat t'), go (int_of_nat x), go (int_of_nat y), go (int_of_nat z))
+    | TRemapAffine (t', m) -> ERemapAffine (go (int_of_nat t'), (match m with a::b::c::d::e::f::g::h::i::j::k::l::_ -> [a;b;c;d;e;f;g;h;i;j;k;l] | _ -> m)) in
+  go root
+
+let c16 s b =
+  let id = next s in
+  let np = next s in
+  let p = Array.of_list (times np (fun () -> next_f32 s)) in
+  let ni = next s in
+  let inputs = times ni (fun () -> let t = parse_tree s in let root = next s in etree_of_table t root) in
+  let i0 () = List.nth inputs 0 and i1 () = List.nth inputs 1 in
+  let v3 k = mk3 p.(k) p.(k+1) p.(k+2) in
+  let tree : f32 etree =
+    match id with
+    | 0 -> s_circle p.(0) p.(1) p.(2)
+    | 1 -> s_rectangle p.(0) p.(1) p.(2) p.(3)
+    | 2 -> s_sphere (v3 0) p.(3)
+    | 3 -> s_box (v3 0) (v3 3)
+    | 4 -> s_plane (v3 0) p.(3)
+    | 5 -> s_union inputs
+    | 6 -> s_intersection inputs
+    | 7 -> s_inverse (i0 ())
+    | 8 -> s_difference (i0 ()) (i1 ())
+    | 9 -> s_blend (i0 ()) (i1 ()) p.(0)
+    | 10 -> s_move (i0 ()) (v3 0)
+    | 11 -> s_scale (i0 ()) (v3 0)
+    | 12 -> s_scale_uniform (i0 ()) p.(0)
+    | 13 -> s_reflect (i0 ()) (v3 0) p.(3)
+    | 14 -> s_reflect_x (i0 ()) p.(0)
+    | 15 -> s_reflect_y (i0 ()) p.(0)
+    | 16 -> s_reflect_z (i0 ()) p.(0)
+    | 17 -> s_reflect_xy (i0 ()) p.(0)
+    | 18 | 19 | 20 | 21 -> s_rotate (i0 ()) (Array.to_list (Array.sub p 0 9)) (v3 9)
+    | 22 -> s_revolve_y (i0 ()) p.(0)
+    | 23 -> s_extrude_z (i0 ()) p.(0) p.(1)
+    | 24 -> s_loft_z (i0 ()) (i1 ()) p.(0) p.(1)
+    | 25 -> s_repeat_x (i0 ()) p.(0) p.(1)
+    | _ -> s_named_plane (nat_of_int (int_of_f32 p.(0) |> fun bits -> if bits = 0 then 0 else if bits = 0x3f800000 then 1 else 2)) in
+  match import_tree libm_oracle tree with
+  | Err c -> Printf.bprintf b "node err %d" (int_of_nat c)
+  | Ok (ctx, node) -> Printf.bprintf b "node %d | arena " (int_of_nat node); buf_arena b ctx
+
 (* ---- C11: interpreter interval evaluation: value or panic ---------------------- *)
 let c11 s b =
   let arena = parse_arena s in
@@ -405,6 +457,7 @@ let dispatch cmd s b =
   | "c05" -> c05 s b
   | "c12" -> c12 s b
   | "c13" -> c13 s b
+  | "c16" -> c16 s b
   | "bcval" -> cmd_bcval s b
   | "c20" -> c20 s b
   | "c04" -> c04 s b
